@@ -141,42 +141,63 @@ def run(ck):
             installed.add(t[len("std::make_unique<"):].split(">")[0].split(",")[0].strip())
     ck.require(len(installed) >= 3, "steps installed by the request parser: %s" % installed)
     cip = lib.single(prog, TI + "checkIdlePeers")
+    # the scan and the private helpers of the transport it was split into (e.g. a per-peer predicate)
+    creg = lib.region(prog, cip, within=lambda g_: g_.cls == cip.cls and g_.cls)
     cmp_ids = set()
-    for e in cip.events(("cmp",)):
-        for side in ("lhs", "rhs"):
-            g = (e.get(side) or {}).get("g") or ""
-            if g.endswith("::Id"):
-                cmp_ids.add(g.rsplit("::", 1)[0])
-    for b in cip.blocks.values():
-        for r in ((b.term or {}).get("refs") or []):
-            pass
-    # ids referenced anywhere in conditions
-    for b in cip.blocks.values():
-        t = b.term or {}
-        for side in ("lhs", "rhs"):
-            g = (t.get(side) or {}).get("g") or ""
-            if g.endswith("::Id"):
-                cmp_ids.add(g.rsplit("::", 1)[0])
+    for g_ in creg:
+        for e in g_.events(("cmp",)):
+            for side in ("lhs", "rhs"):
+                gq = (e.get(side) or {}).get("g") or ""
+                if gq.endswith("::Id"):
+                    cmp_ids.add(gq.rsplit("::", 1)[0])
+        for b in g_.blocks.values():
+            t = b.term or {}
+            for side in ("lhs", "rhs"):
+                gq = (t.get(side) or {}).get("g") or ""
+                if gq.endswith("::Id"):
+                    cmp_ids.add(gq.rsplit("::", 1)[0])
     for stp in sorted(installed):
         full = stp if stp.startswith("Pistache") else H + "Private::" + stp.split("::")[-1]
         ck.ob("C14-R4", "phase-covered:%s" % full.rsplit("::", 1)[1], full in cmp_ids, cip.loc, cip, "checkIdlePeers compares step()->id() with %s::Id" % full.rsplit("::", 1)[1])
-    # both time-outs consulted
+    # both time-outs consulted: every place that declares a peer idle -- a push into the local list of idle peers, or a non-false
+    # return of the bool predicate that guards it -- is decided by a condition that mentions bodyTimeout_
+    BT, HT = "f:" + TI + "bodyTimeout_", "f:" + TI + "headerTimeout_"
     refs_all = set()
-    for b in cip.blocks.values():
-        for r in ((b.term or {}).get("refs") or []):
-            refs_all.add(r)
+    for g_ in creg:
+        for b in g_.blocks.values():
+            refs_all |= set((b.term or {}).get("refs") or [])
+        for e in g_.events("return"):
+            refs_all |= set(e.get("refs") or [])
     idle_push = [e for e in cip.calls(lambda e: e.base_callee() == "std::vector::push_back" and (e.get("recv") or {}).get("v") in {x["var"] for x in cip.events("decl") if "vector" in (x.get("type") or "") and "Peer" in (x.get("type") or "")})]
-    ck.require(len(idle_push) >= 2, "idlePeers.push_back sites: %d" % len(idle_push))
+    ck.require(len(idle_push) >= 1, "idlePeers.push_back sites: %d" % len(idle_push))
+
+    def guarded_by_body_timeout(fn_, e):
+        guards = [b for b in fn_.blocks.values() if b.term and BT in (b.term.get("refs") or []) and any(cfg.edge_dominates(fn_, b.id, k_, e) for k_ in (0, 1) if len(b.succs) > k_ and b.succs[k_] is not None)]
+        lor_guards = [b for b in fn_.blocks.values() if b.term and BT in (b.term.get("refs") or []) and b.succs and b.succs[0] == e.block]
+        return bool(guards or lor_guards)
     body_ok = True
+    ndec = 0
     for e in idle_push:
-        # the push is guarded by a condition mentioning bodyTimeout_
-        guards = [b for b in cip.blocks.values() if b.term and ("f:" + TI + "bodyTimeout_") in (b.term.get("refs") or []) and (cfg.edge_dominates(cip, b.id, 0, e))]
-        lor_guards = [b for b in cip.blocks.values() if b.term and ("f:" + TI + "bodyTimeout_") in (b.term.get("refs") or []) and b.succs and b.succs[0] == e.block]
-        if not guards and not lor_guards:
+        if guarded_by_body_timeout(cip, e):
+            ndec += 1
+            continue
+        # guarded by a predicate helper: its non-false returns are the decisions
+        preds = [g_ for g_ in creg if g_.id != cip.id and not g_.is_lambda and any(cfg.edge_dominates(cip, bid, k_, e) for bid, k_ in lib.result_edges(cip, g_.base, True))]
+        if not preds:
+            ndec += 1
             body_ok = False
-    head_ok = ("f:" + TI + "headerTimeout_") in refs_all
+            continue
+        for g_ in preds:
+            for r_ in g_.events("return"):
+                if r_.get("const") is False:
+                    continue
+                ndec += 1
+                if not (BT in (r_.get("refs") or []) or guarded_by_body_timeout(g_, r_)):
+                    body_ok = False
+    ck.require(ndec >= 2, "idle decisions found: %d" % ndec)
+    head_ok = HT in refs_all
     ck.ob("C14-R4", "both-timeouts-tested", body_ok and head_ok, cip.loc, cip, "every phase tests bodyTimeout_ (%s); head phases test headerTimeout_ (%s)" % (body_ok, head_ok))
-    tdecl = [d for d in cip.events("decl") if strip_tmpl(d.get("icall") or "").endswith("ParserImpl::time")]
+    tdecl = [d for g_ in creg for d in g_.events("decl") if strip_tmpl(d.get("icall") or "").endswith("ParserImpl::time")]
     tset = [(f2, a) for f2 in prog.funcs.values() if f2.cls == H + "Private::ParserImpl<Pistache::Http::Request>" for a in list(f2.events("assign")) + list(f2.events("init")) + [c for c in f2.events("call") if c.get("op") == "="]
             if ((a.get("lhs") or {}).get("f") or a.get("f") or (a.get("recv") or {}).get("f") or "").endswith("::time_")]
     where = {("ctor" if f2.d.get("ctor") else f2.base.rsplit("::", 1)[1]) for f2, _ in tset}
@@ -184,9 +205,13 @@ def run(ck):
 
     # ---------------- R5 ----------------
     orf = lib.single(prog, TI + "onReady")
-    tt = [b for b in orf.blocks.values() if b.term and b.term.get("k") == "if" and ("f:" + TI + "timerFd") in (b.term.get("refs") or [])]
+    # the scan runs on the edge of a test that is about the periodic timer: its condition mentions timerFd, or a local computed from it
+    tf_seeds = {d_["var"] for d_ in orf.events("decl") if d_.get("var") and ("f:" + TI + "timerFd") in (d_.get("refs") or [])}
+    tf_vars = lib.derived_vars(orf, tf_seeds, prog) if tf_seeds else set()
+    tt = [b for b in orf.blocks.values() if b.term and b.term.get("k") == "if" and
+          (("f:" + TI + "timerFd") in (b.term.get("refs") or []) or any(("v:" + v_) in (b.term.get("refs") or []) for v_ in tf_vars))]
     cic = [e for e in orf.calls(lambda e: (e.get("callee") or "") == TI + "checkIdlePeers")]
-    ok = bool(tt) and bool(cic) and cfg.edge_dominates(orf, tt[0].id, 0, cic[0])
+    ok = bool(tt) and bool(cic) and any(cfg.edge_dominates(orf, b.id, 1 if b.term.get("neg") else 0, cic[0]) for b in tt)
     base = [e for e in orf.calls(lambda e: (e.get("callee") or "") == "Pistache::Tcp::Transport::onReady" and e.get("qualified"))]
     bad = [x for x in cfg.exits_without(orf, lambda e: any(e is b for b in base)) if x.kind != "throw"]
     ck.ob("C14-R5", "onReady/periodic-scan", ok and bool(base) and not bad, orf.loc, orf, "timer tag => checkIdlePeers(); Base::onReady(fds) on every path")
